@@ -156,7 +156,7 @@ Qed.
     these (not the moments about the moving centroid) obey a closed recurrence.
     ------------------------------------------------------------------------------------------------ *)
 From Inovesa Require Import Model.RF Model.Moments2Fix Proofs.WeightsP Proofs.RFP Proofs.RFGridP Proofs.Moment2RowP
-  Proofs.StepMoments2P Proofs.RFExampleP Proofs.StepExampleP Proofs.CoupledP Proofs.CoupledR.
+  Proofs.StepMoments2P Proofs.RFExampleP Proofs.StepExampleP Proofs.CoupledP Proofs.CoupledR Proofs.CoupledGridR.
 Import ListNotations.
 
 (** C04.3a, one kick row: the centred second moment moves exactly by the displacement the table row encodes,
@@ -467,3 +467,27 @@ Theorem C04_J_sandwich :
     4 * ((sm_J (K:=RF) a t m - S) * (sm_J (K:=RF) a t m - S)) <= a * t * (S * S).
 Proof. exact J_sandwich. Qed.
 Print Assumptions C04_J_sandwich.
+
+(** C04.6 end to end, the grid model itself: reading its exact rational moments as reals ([phi], the embedding
+    Qc -> R, commutes with the recurrence), k full steps of RFKickMap, DriftMap and FokkerPlanckMap (3-point, with
+    damping) bring the second moments of bunch b closer to the fixed point by rho^2 per step in N - for every data,
+    grid and zero bins, as long as the distribution stays inside (finite horizon: in exact arithmetic the support
+    grows by a few cells per step).  _partial for the same reason as above (e1 <= a). *)
+Theorem C04_grid_deviation_contracts_partial :
+  forall (n nb it : Z), valid_it it -> (3 <= it)%Z -> (2 <= n < 2 ^ 30)%Z -> (0 < nb)%Z ->
+  forall (xc yc t a : Qc) (orf odr : Z -> Qc) (e1 delta : Qc) (p : Z -> Qc) (v le m : Z),
+    (forall b x, (0 <= b < nb)%Z -> (0 <= x < n)%Z ->
+        eff_off n (orf (Z.min b (nb - 1) * n + x)%Z) = (t * (xc - qz x))%Qc) ->
+    (forall y, (0 <= y < n)%Z -> eff_off n (odr y) = (a * (qz y - yc))%Qc) ->
+    (forall j, p j = (delta * (qz j - yc))%Qc) -> delta <> 0%Qc ->
+    has_damp v = true -> dom_ud (phi a) (phi t) (phi e1) ->
+  forall D b (k : nat), (0 <= b < nb)%Z ->
+    (forall j, (j < k)%nat -> full_ok n nb it orf odr (iter_full n nb it orf odr e1 delta p v le m j D) b) ->
+    Nm (K:=RF) (phi a) (phi t) (phi e1)
+       (dev (K:=RF) v (phi a) (phi t) (phi e1) (phi delta)
+            (mapm (gm2 n xc yc (iter_full n nb it orf odr e1 delta p v le m k D) b)))
+    <= (rho (K:=RF) (phi a) (phi t) (phi e1) * rho (K:=RF) (phi a) (phi t) (phi e1)) ^ k
+       * Nm (K:=RF) (phi a) (phi t) (phi e1)
+            (dev (K:=RF) v (phi a) (phi t) (phi e1) (phi delta) (mapm (gm2 n xc yc D b))).
+Proof. exact grid_deviation_contracts. Qed.
+Print Assumptions C04_grid_deviation_contracts_partial.
